@@ -211,7 +211,16 @@ impl Prop for C15 {
         let s = (prop::collection::vec(any::<u8>(), 0..=13), gen::raw_inputs(5, 14), prop::collection::vec(rep, 6..=6))
             .prop_map(|(groups, inputs, reps)| Case15 { groups, inputs, reps })
             .boxed();
-        vec![Part { name: "random".into(), strategy: s, cases: tier.pick(250_000, 4_000_000) }]
+        // many groups (up to 45, so that two-digit references reach real groups), long replacement strings, all ten digits
+        const R3: &[char] = &['$', '\\', '0', '1', '2', '3', '4', '5', '6', '7', '8', '9', 'a', '$', '$', '1', '2', '3', '4', ' '];
+        let rep3 = prop::collection::vec(any::<u16>(), 0..40).prop_map(|v| v.iter().map(|i| R3[((*i as usize) * R3.len()) >> 16]).collect::<String>());
+        let s3 = (prop::collection::vec(any::<u8>(), 14..=45), gen::raw_inputs(4, 40), prop::collection::vec(rep3, 6..=6))
+            .prop_map(|(groups, inputs, reps)| Case15 { groups, inputs, reps })
+            .boxed();
+        vec![
+            Part { name: "random".into(), strategy: s, cases: tier.pick(250_000, 4_000_000) },
+            Part { name: "scaled".into(), strategy: s3, cases: tier.pick(40_000, 600_000) },
+        ]
     }
     fn enumerations(&self, tier: Tier) -> Vec<(String, String, Box<dyn Iterator<Item = Case15> + Send>)> {
         let len = tier.pick(4, 5);
